@@ -4,11 +4,12 @@ import gfpy
 from vlib import fmt_list
 
 PID = 'C03'
+LEVEL = 'fault_enumeration'
 RULE = ('fault enumeration: for all 48 sizes a random codeword with error patterns of every weight 0..t per block (t = floor(k/2)), positions '
         'forced into the data part, the EC part, both, the first and the last codeword of every block, all blocks at once; every single '
         'position of every size with a random wrong value; plus the same damage applied as flipped modules of the rendered symbol through '
         'DataMatrix::decode; non-trivial = at least one error')
-THEOREMS = ''
+THEOREMS = 'C03_weight0, C03_success_is_codeword'
 ASSUMPTIONS = ['completeness of the Levinson-Durbin / Bjoerck-Pereyra decoder for weights 2..t is not proved (fault enumeration only)']
 
 
